@@ -16,6 +16,18 @@ def names():
         short = b.split(".")[-1]
         out += [b.upper(), b.capitalize(), b[:-1], b + "x", "geo." + short, "Geo." + short, "my." + short, "a.b." + short, "geo.x." + short]
     out += ["foo", "f.g", "x.y.z", "geo.foo", "matchespattern", "geo.Distance", "odata.concat", "Concat"]
+    # names that a Unicode normaliser (NFKC / NFKD / case folding) would turn into a built-in: one inner letter replaced by a compatibility character
+    import unicodedata
+    compat = {"s": "\u017f", "t": "\uff54", "a": "\u00aa", "o": "\u00ba", "e": "\u1d49", "i": "\u2071", "n": "\u207f", "h": "\u02b0", "c": "\uff43", "l": "\u02e1", "r": "\u02b3", "d": "\uff44"}
+    for b in base:
+        ns, _, short = b.rpartition(".")
+        for i in range(1, len(short)):
+            if short[i] in compat:
+                v = short[:i] + compat[short[i]] + short[i + 1:]
+                if unicodedata.normalize("NFKC", v) == short or unicodedata.normalize("NFKC", v).lower() == short:
+                    out.append((ns + "." if ns else "") + v)
+                    break
+    out += ["g\u1d49o.distance", "g\u1d49o.length", "g\u1d49o.nosuch", "ge\u00ba.distance"]
     return list(dict.fromkeys(out))
 
 def gen_cases(ctx):
